@@ -283,8 +283,63 @@ func execBytes(b []byte) ev.Verdict {
 }
 
 func safeString(v starlark.Value) string {
-	// String() of self-referential containers is handled by starlark itself
+	// String() of self-referential containers is handled by starlark itself; a heavily shared value
+	// (a DAG that doubles at every level) has a string of exponential size and is not printed
+	if unfolded(v, map[any]float64{}) > 200000 {
+		return ""
+	}
 	return v.String()
+}
+
+// unfolded is the number of nodes of v counted once per path (the size of its printed form).
+func unfolded(v starlark.Value, memo map[any]float64) float64 {
+	var kids []starlark.Value
+	var key any
+	switch x := v.(type) {
+	case *starlark.List:
+		key = x
+		for i := 0; i < x.Len(); i++ {
+			kids = append(kids, x.Index(i))
+		}
+	case starlark.Tuple:
+		kids = x
+	case *starlark.Dict:
+		key = x
+		for _, it := range x.Items() {
+			kids = append(kids, it[0], it[1])
+		}
+	case *starlark.Set:
+		key = x
+		it := x.Iterate()
+		var e starlark.Value
+		for it.Next(&e) {
+			kids = append(kids, e)
+		}
+		it.Done()
+	case *starval.Host:
+		key = x
+		if x.Payload != nil {
+			kids = append(kids, x.Payload)
+		}
+	default:
+		return 1
+	}
+	if key != nil {
+		if n, ok := memo[key]; ok {
+			return n
+		}
+		memo[key] = 1 // a cycle counts once
+	}
+	n := 1.0
+	for _, k := range kids {
+		if k != nil {
+			n += unfolded(k, memo)
+		}
+	}
+	if key != nil {
+		memo[key] = n
+	}
+	return n
 }
 
 func trunc(b []byte) string {
@@ -344,6 +399,16 @@ func TestC15Decode(t *testing.T) {
 			}
 		}
 	}
+	// well-formed pickles that hand the unpicklers objects of the wrong shape, incl. heavily shared ones
+	j := 0
+	ev.Enumerate(run, t, "wrong-shape", func() (Case, bool) {
+		if run.Shard != 0 || j >= len(foreignPickles) {
+			return Case{}, false
+		}
+		c := Case{Raw: append([]byte{}, foreignPickles[j]...)}
+		j++
+		return c, true
+	}, execCase)
 	i := 0
 	ev.Enumerate(run, t, "truncations", func() (Case, bool) {
 		if i >= len(inputs) {
